@@ -21,7 +21,7 @@ Fixpoint dec_base (fuel : nat) (x : sx) : option base :=
   | 0 => None
   | S f =>
       match x with
-      | L [A 0%Z; i; _; A 1%Z] => match as_nat i with Some i' => Some (BAdapter i' false) | None => None end
+      | L [A 0%Z; i; _; A 1%Z] | L [A 0%Z; i; _; A 3%Z] => match as_nat i with Some i' => Some (BAdapter i' false) | None => None end
       | L [A 0%Z; i; _; A 2%Z] => match as_nat i with Some i' => Some (BAdapter i' true) | None => None end
       | L (A 0%Z :: i :: m :: _) => match as_nat i, as_nat m with Some i', Some m' => Some (BLeaf i' m') | _, _ => None end
       | L [A 1%Z; s; r] => match dec_base f s, dec_base f r with Some s', Some r' => Some (BStapled s' r') | _, _ => None end
